@@ -45,6 +45,7 @@ def main(a):
             return 1
         return 0
 
+    orch.clean_replays(PROP)
     # 1. exhaustive sweep: function x abstract state x canonical arguments
     w = orch.Worker(binary, 99, ENV)
     lines, _ = orch.command(w, "SWEEPCOUNT")
